@@ -189,21 +189,25 @@ theorem kindWeights_objective (kind : Kind) (n : Nat) (A : Nat → Nat → Rat) 
     cases h
 
 /-- what a successful pre-processing went through -/
-theorem preProcess_ok (kind : Kind) (nRow nCol nnz : Nat) (B : Nat → Nat → Rat) (fb : Bool) (lv : Level)
-    (h : preProcess kind nRow nCol nnz B fb = .ok lv) :
-    ∃ w, kindWeights kind (kindAdj kind nRow nCol B fb).1 (kindAdj kind nRow nCol B fb).2 = .ok w ∧
-      lv = symLevel (kindAdj kind nRow nCol B fb).1 (kindAdj kind nRow nCol B fb).2 w.1 w.2 := by
-  unfold preProcess at h
+theorem preProcessAdj_ok (kind : Kind) (n : Nat) (A : Nat → Nat → Rat) (nnz : Nat) (lv : Level)
+    (h : preProcessAdj kind n A nnz = .ok lv) :
+    ∃ w, kindWeights kind n A = .ok w ∧ lv = symLevel n A w.1 w.2 := by
+  unfold preProcessAdj at h
   split at h
   · cases h
-  · simp only at h
-    split at h
+  · split at h
     · cases h
     · rename_i w hw
       split at h
       · cases h
       · cases h
         exact ⟨w, hw, rfl⟩
+
+theorem preProcess_ok (kind : Kind) (nRow nCol nnz : Nat) (B : Nat → Nat → Rat) (fb : Bool) (lv : Level)
+    (h : preProcess kind nRow nCol nnz B fb = .ok lv) :
+    ∃ w, kindWeights kind (kindAdj kind nRow nCol B fb).1 (kindAdj kind nRow nCol B fb).2 = .ok w ∧
+      lv = symLevel (kindAdj kind nRow nCol B fb).1 (kindAdj kind nRow nCol B fb).2 w.1 w.2 :=
+  preProcessAdj_ok kind _ _ nnz lv h
 
 /-- **Louvain.fit, exact arithmetic.**  The objective of the modularity kind (documented formula on the input
     matrix) of the returned labels is the objective of the singletons plus the sum of the logged increases, and
@@ -242,5 +246,47 @@ theorem louvainFit_spec (kind : Kind) (res tolOpt tolAgg : Rat) (nAgg : Int) (nR
       exact Q_congr _ _ _ _ _ _ _ fun u hu => labOf_range _ _ hu
     rw [← e1, ← e3, ← e2, k1]
     exact k4
+
+/-- **Louvain.fit as compiled, exact arithmetic**, on the adjacency `A` of `n` nodes that `get_adjacency` (and the
+    optional shuffle) produced -/
+theorem louvainFitAdj_spec (kind : Kind) (res tolOpt tolAgg : Rat) (nAgg : Int) (n : Nat) (A : Nat → Nat → Rat)
+    (nnz : Nat) (out : FitOut) (h : louvainFitAdj kind res tolOpt tolAgg nAgg n A nnz = .ok (some out)) :
+    out.labels.length = n ∧
+    objective kind n A res (labOf out.labels) = objective kind n A res (fun u => u) + out.increases.sum ∧
+    ∀ x ∈ out.increases, 0 ≤ x := by
+  unfold louvainFitAdj at h
+  split at h
+  · cases h
+  · rename_i lv hlv
+    simp only [Except.ok.injEq] at h
+    obtain ⟨w, hw, rfl⟩ := preProcessAdj_ok _ _ _ _ _ hlv
+    have hOK := symLevel_levelOK n A w.1 w.2
+    obtain ⟨extra, k1, k2, k3, k4⟩ := louvainLoopCapped_spec res tolOpt tolAgg nAgg _ _ 0 _
+      (arange n) [] out hOK (by simp [arange, symLevel])
+      (fun u hu => by
+        show labOf (List.range n) u < n
+        rw [labOf_range n u hu]; exact hu)
+      (fun c' => Q_congr _ _ _ _ _ _ _ fun u hu => by
+        show c' u = c' (labOf (List.range n) u)
+        rw [labOf_range n u hu]) h
+    simp only [List.nil_append] at k1
+    refine ⟨k3, ?_, by rw [k1]; exact k2⟩
+    have e1 := kindWeights_objective kind _ _ w hw res (labOf out.labels)
+    have e2 := kindWeights_objective kind _ _ w hw res (labOf (arange n))
+    have e3 : objective kind n A res (labOf (arange n)) = objective kind n A res (fun u => u) := by
+      rw [← e2, ← kindWeights_objective kind _ _ w hw res (fun u => u)]
+      exact Q_congr _ _ _ _ _ _ _ fun u hu => labOf_range _ _ hu
+    rw [← e1, ← e3, ← e2, k1]
+    exact k4
+
+theorem louvainFitCapped_spec (kind : Kind) (res tolOpt tolAgg : Rat) (nAgg : Int) (nRow nCol nnz : Nat)
+    (B : Nat → Nat → Rat) (fb : Bool) (out : FitOut)
+    (h : louvainFitCapped kind res tolOpt tolAgg nAgg nRow nCol nnz B fb = .ok (some out)) :
+    out.labels.length = (kindAdj kind nRow nCol B fb).1 ∧
+    objective kind (kindAdj kind nRow nCol B fb).1 (kindAdj kind nRow nCol B fb).2 res (labOf out.labels)
+      = objective kind (kindAdj kind nRow nCol B fb).1 (kindAdj kind nRow nCol B fb).2 res (fun u => u)
+        + out.increases.sum ∧
+    ∀ x ∈ out.increases, 0 ≤ x :=
+  louvainFitAdj_spec kind res tolOpt tolAgg nAgg _ _ nnz out h
 
 end SkNet.Modularity
